@@ -1,5 +1,6 @@
 import Driver.Query
 import Treepath.Model.Descr
+import Treepath.Spec.TreeWrite
 /- the `m` (mutate) family: histories of set_/set_match/pop/pop_match/get(store_default) and
 Match handle writes on one evolving document, with the whole reachable object graph dumped
 after every operation under canonical object numbers. -/
@@ -194,6 +195,47 @@ def predOf (name : String) (h : Heap) : Val → Bool := fun v =>
 
 def getNatJ (j : Json) : E Nat := match j.getNat? with | .ok n => pure n | .error e => .error e
 
+/-! ### the tree-level specification, run next to the store model
+
+For every non-cascading `set_` and every `pop` that succeeds on a document satisfying the
+premises of `set_is_one_tree_update` / `pop_is_one_tree_update` (no aliasing, fresh value),
+the driver also computes `J.setAt` / `J.popAt` on the unfolded tree and compares it with what
+the store unfolds to afterwards: "ok" / "BAD"; "na" when the premises do not hold. -/
+
+def nodupB : List Nat → Bool
+  | [] => true
+  | x :: xs => !xs.contains x && nodupB xs
+
+def treeVerdictSet (h1 : Heap) (root v : Val) (m : MNode Val) (h' : Heap) : String :=
+  let j := unfoldVal h1 64 root
+  let jv := unfoldVal h1 64 v
+  let fr := fpJ h1 j root
+  let fv := fpJ h1 jv v
+  if !nodupB fr || !nodupB fv || fv.any (fr.contains ·) then "na"
+  else match m.loc.getLast? with
+    | none => "na"
+    | some nm =>
+      match J.setAt j m.loc.dropLast nm jv with
+      | some j' => if sameJ j' (unfoldVal h' 64 root) then "ok" else "BAD"
+      | none => "BAD"
+
+def treeVerdictPop (h : Heap) (root : Val) (last : Option (Step Val)) (m : MNode Val) (h' : Heap) : String :=
+  let j := unfoldVal h 64 root
+  if !nodupB (fpJ h j root) then "na"
+  else match m.parent, last with
+    | some p, some (.key k) =>
+      (match J.popAt j p.loc (.key k) with
+       | some j' => if sameJ j' (unfoldVal h' 64 root) then "ok" else "BAD"
+       | none => "BAD")
+    | some p, some (.idx i) =>
+      (match J.popAt j p.loc (.idx i) with
+       | some j' => if sameJ j' (unfoldVal h' 64 root) then "ok" else "BAD"
+       | none => "BAD")
+    | _, _ => "na"
+
+def withT (r : MState × Json) (t : String) : MState × Json :=
+  (r.1, r.2.setObjVal! "t" (.str t))
+
 def runOp (st : MState) (op : Json) : E (MState × Json) := do
   let a ← getArr op
   let src : Src Val := .doc st.root
@@ -201,12 +243,16 @@ def runOp (st : MState) (op : Json) : E (MState × Json) := do
   | [.str "set", p, vs, .bool cascade] => do
     let (h, v) ← decValSpec st vs
     match setMatch (stepsOfJson p) src cascade h v with
-    | (h', .ok m) => return finish { st with heap := h' } "ok" [] (some m.data)
+    | (h', .ok m) =>
+      let t := if cascade then "na" else treeVerdictSet h st.root v m h'
+      return withT (finish { st with heap := h' } "ok" [] (some m.data)) t
     | (h', .error e) => return finishErr { st with heap := h' } (errJ e)
   | [.str "set_match", p, vs, .bool cascade] => do
     let (h, v) ← decValSpec st vs
     match setMatch (stepsOfJson p) src cascade h v with
-    | (h', .ok m) => return finish { st with heap := h' } "match" (matchPre m) (some m.data)
+    | (h', .ok m) =>
+      let t := if cascade then "na" else treeVerdictSet h st.root v m h'
+      return withT (finish { st with heap := h' } "match" (matchPre m) (some m.data)) t
     | (h', .error e) => return finishErr { st with heap := h' } (errJ e)
   | [.str "mset", sp, k, p, vs, .bool cascade] => do
     let k ← getNatJ k
@@ -221,11 +267,17 @@ def runOp (st : MState) (op : Json) : E (MState × Json) := do
   | [.str "pop", p, d] => do
     let (h, dv) ← decDflt st d
     match pop (stepsOfJson p) src dv h with
-    | (h', .ok v) => return finish { st with heap := h' } "ok" [] (some v)
+    | (h', .ok v) =>
+      let t := match popMatch (stepsOfJson p) src dv.isNone h with
+        | (_, .ok (some m)) => treeVerdictPop h st.root (stepsOfJson p h).getLast? m h'
+        | _ => "na"
+      return withT (finish { st with heap := h' } "ok" [] (some v)) t
     | (h', .error e) => return finishErr { st with heap := h' } (errJ e)
   | [.str "pop_match", p, .bool mm] =>
     match popMatch (stepsOfJson p) src mm st.heap with
-    | (h', .ok (some m)) => return finish { st with heap := h' } "match" (matchPre m) (some m.data)
+    | (h', .ok (some m)) =>
+      return withT (finish { st with heap := h' } "match" (matchPre m) (some m.data))
+        (treeVerdictPop st.heap st.root (stepsOfJson p st.heap).getLast? m h')
     | (h', .ok none) => return finish { st with heap := h' } "none" [] none
     | (h', .error e) => return finishErr { st with heap := h' } (errJ e)
   | [.str "get_sd", p, vs] => do
